@@ -259,3 +259,28 @@ prop("C17",
      level_note="Trusted: the RDB generator and the line canonicaliser. The aux line's value64 is accepted raw or base64 (the statement only demands the line). Hashes beyond 16 MiB are a known finding (decode aborts) and are only replayed in the regression tier.",
      assumptions=["NaN scores are not generated",
                   "line order across keys is unspecified; per-list indexes are checked through the index field"])
+
+prop("C05",
+     title="The RDB/command-stream hand-off loses and duplicates no byte",
+     timing=True,
+     quick=[{"re": "^TestC05$", "checks": 800, "shards": 4},
+            {"re": "^TestC05Full$", "checks": 30},
+            {"re": "^TestC05Dump$", "checks": 80}],
+     thorough=[{"re": "^TestC05$", "checks": 120000, "shards": 12, "timeout": 1700},
+               {"re": "^TestC05Full$", "checks": 1500, "shards": 3, "timeout": 1700},
+               {"re": "^TestC05Dump$", "checks": 6000, "shards": 3, "timeout": 1700}],
+     rule="reply framing: 0-5 leading newlines, '+FULLRESYNC <40 hex> <offset>' or '+CONTINUE' in random letter case, 0-5 newlines before '$<n>', n from 1 to "
+          "40000 (full path 300000; thorough up to 40 MiB) at 1,2,7,8191-8193,16384 and random, RDB and command bytes made of protocol look-alikes ('\\n', "
+          "'\\r\\n', '$5\\r\\n', '+CONTINUE\\r\\n', PING frames, 0x00, 0xff); the byte stream is split at generated positions (always candidates within +-2 of the "
+          "RDB/command boundary, inside/around the '$n' header, at 8192 multiples) with generated inter-segment delays, sent by a fake source over loopback "
+          "TCP, and additionally fragmented on the reader side by a wrapper that caps each Read at scripted sizes; bufio sizes 16-65536, pipe 1-16 units, "
+          "consumer read sizes/pauses scripted (back-pressure). Component level: utils.SendPSyncContinue + DbSyncer.runIncrementalSync; full path: the "
+          "real sendPSyncCmd (32 MiB buffers); dump mode: dbDumper.dump to a temp file. Oracle: bytes read from the pipe == RDB||commands exactly, no "
+          "surplus; returned run id/offset/size == announced (CONTINUE: offset unchanged, PSYNC carried offset+1); DbSyncer.sourceOffset == announced; "
+          "dump file == RDB, returned size == n, bytes still in the returned reader are a prefix of the command bytes. Non-trivial: >=2 splits with one "
+          "within +-2 bytes of the boundary or inside the header. Distinct = hash of (stream, case description).",
+     technique="property-based testing (rapid) with a scripted fake replication source: generated framings x fragmentations x timings, byte-exact stream oracle",
+     level_text="Generated framings, split points and timings against the real handshake/copy code over real sockets; reader-side fragmentation is exact (decided by the generator), sender-side segmentation is requested from the kernel.",
+     level_note="Trusted: harness/fsrc and the fragmenting conn wrapper. Left-over tool goroutines end through the tool's own reconnect/abort path against a listener that closes at once.",
+     assumptions=["+CONTINUE is only answered to a PSYNC that names the source's run id and a real offset (as a master does)",
+                  "the announced run id is compared case-sensitively; only the keywords are case-folded"])
